@@ -21,7 +21,7 @@ import pyglove as pg
 
 from sim.core import Streams, Violation, digest, small_hash
 from engines import values
-from engines.values import Leaf, Node, Rec, Rec2
+from engines.values import Leaf, Node, Rec, Rec2, Quiet, RecQ
 
 PROPS = ['C01', 'C02', 'C03', 'C07', 'C08', 'C09']
 MISSING = pg.MISSING_VALUE
@@ -223,13 +223,17 @@ def gen_plain_dict(rng):
     return ['dict', items]
 
 
+REC_KINDS = {'rec': Rec, 'rec2': Rec2, 'quiet': Quiet, 'recq': RecQ}
+
+
 def gen_rec(rng, depth):
     d = {'a': ['int', rng.randint(0, 5)]}
     if depth < 2 and rng.random() < 0.6:
-        d['child'] = gen_rec_leaf(rng, depth + 1)
+        c = gen_rec_leaf(rng, depth + 1)
+        d['child' if c[0] in ('rec', 'rec2') else 'v'] = c     # `child` is typed Object(Rec)
     if rng.random() < 0.5:
         d['box'] = ['dict', [['p', ['int', 1]], ['q', ['list', [['int', 2], ['int', 3]]]]]]
-    if rng.random() < 0.5:
+    if 'v' not in d and rng.random() < 0.5:
         d['v'] = values.gen_value(rng, max_depth=1, special_floats=False, tuples=False, objects=False)
     if rng.random() < 0.6:
         d['w'] = ['list', [gen_plain(rng, 1) for _ in range(rng.randint(0, 3))]]
@@ -242,9 +246,12 @@ def gen_rec_leaf(rng, depth):
     d = {}
     if rng.random() < 0.7:
         d['v'] = gen_plain(rng, 1)
+        if depth < 2 and rng.random() < 0.3:
+            d['v'] = gen_rec_leaf(rng, depth + 1)
     if rng.random() < 0.5:
         d['w'] = ['list', [gen_plain(rng, 1) for _ in range(rng.randint(0, 2))]]
-    return ['rec', d]
+    # 'quiet': a class without a change handler; 'recq': a subclass of it that adds one
+    return [rng.choice(['rec', 'rec', 'quiet', 'recq', 'recq']), d]
 
 
 def gen_value_arg(rng, prop):
@@ -261,7 +268,10 @@ def gen_value_arg(rng, prop):
     if prop == 'C03':
         k = rng.random()
         if k < 0.12:
-            return ['typed', rng.choice(['pd', 'pl']), rng.random() < 0.6]
+            which = rng.choice(['pd', 'pl', 'ro', 'ro', 'rl'])
+            if which in ('ro', 'rl'):
+                return ['typed', which, rng.choice([False, True, 'scoped', 'scoped'])]
+            return ['typed', which, rng.random() < 0.6]
         if k < 0.3:
             return ['int', rng.choice([-1, 0, 3, 9, 10, 60])]
         if k < 0.45:
@@ -505,11 +515,11 @@ class Forest:
         kind, d = desc
         kw = {}
         for kk, x in d.items():
-            if x[0] in ('rec', 'rec2'):
+            if x[0] in REC_KINDS:
                 kw[kk] = self.build_rec(x)
             else:
                 kw[kk] = values.build(x, symbolic=False)
-        return (Rec2 if kind == 'rec2' else Rec)(**kw)
+        return REC_KINDS[kind](**kw)
 
     def containers(self, root):
         out = []
@@ -568,7 +578,7 @@ def _materialize(forest, vdesc):
         return MISSING
     if vdesc[0] == 'insertion':
         return pg.Insertion(_materialize(forest, vdesc[1]))
-    if vdesc[0] in ('rec', 'rec2'):
+    if vdesc[0] in REC_KINDS:
         return forest.build_rec(vdesc)
     if vdesc[0] == 'typed':
         return values.build(vdesc)
@@ -1898,7 +1908,10 @@ def _apply_error(vspec, v, allow_partial):
         if e:
             return e
     try:
-        c = v.clone(deep=True) if isinstance(v, pg.Symbolic) else copy.deepcopy(v)
+        # (the copy the spec is applied to: an object made partial under a scope
+        # can only be copied under that scope again)
+        with pg.allow_partial(True if allow_partial else None), pg.as_sealed(False):
+            c = v.clone(deep=True) if isinstance(v, pg.Symbolic) else copy.deepcopy(v)
         with pg.allow_partial(None), pg.enable_type_check(True), pg.as_sealed(False):
             r = vspec.apply(c, allow_partial=allow_partial)
     except (TypeError, ValueError, KeyError) as e:
@@ -1982,6 +1995,59 @@ class C03Oracle(OracleBase):
                 return False
         return True
 
+    def _check_strict_slots(self, step, op, out, scopes):
+        """A typed slot of a container that does not accept partial values never
+        stores one: checked on what a successful write has just put there.  (An
+        object made partial under pg.allow_partial(True) keeps allow_partial=False
+        itself; untyped slots may hold it, strict typed ones must refuse it.)"""
+        if out.status != 'ok' or out.root_index is None or \
+                out.root_index >= len(self.forest.roots):
+            return True
+        root = self.forest.roots[out.root_index]
+        if scopes.get('allow_partial') is None and 'enable_type_check' not in scopes:
+            for w in (out.written or []):
+                try:
+                    container = pg.KeyPath(list(w[:-1])).query(root) if len(w) > 1 else root
+                    stored = pg.KeyPath(list(w)).query(root)
+                    key = w[-1]
+                    if not isinstance(stored, pg.Symbolic) or not stored.sym_partial:
+                        continue
+                    if isinstance(container, pg.Object):
+                        field = type(container).__schema__.get_field(key)
+                        spec = field.value if field is not None else None
+                    elif isinstance(container, pg.Dict) and container.value_spec is not None:
+                        field = container.value_spec.schema.get_field(key)
+                        spec = field.value if field is not None else None
+                    elif isinstance(container, pg.List) and container.value_spec is not None:
+                        spec = container.value_spec.element.value
+                    else:
+                        spec = None
+                except Exception:  # pylint: disable=broad-except
+                    continue
+                if spec is None or isinstance(spec, pg.typing.Any) or container.allow_partial:
+                    continue
+                self.bad('C03.partial-accepted', f'{op["k"]}|{type(container).__name__}',
+                         f'{op["k"]}{json.dumps(op["a"])[:160]} stored a partial '
+                         f'{type(stored).__name__} (missing {list(stored.sym_missing())[:3]}) in the '
+                         f'typed slot {key!r} of a {type(container).__name__} at {list(w[:-1])} that '
+                         f'does not allow partial values (no allow_partial scope active)', step)
+                return False
+        return True
+
+    def _mark_scoped(self, op, out):
+        """Objects that were made partial under pg.allow_partial(True) by the harness
+        and that the library stored somewhere (legitimately: untyped slots, partial
+        containers) are explicitly partial from now on."""
+        if not any(a and a[0] == 'typed' and a[2] == 'scoped' for a in _arg_descs(op)):
+            return
+        for root in list(self.forest.roots) + list(out.new_roots):
+            if not isinstance(root, pg.Symbolic):
+                continue
+            for n, _, _, _ in values.walk(root):
+                if isinstance(n, values.Req) and not n.allow_partial and n.sym_partial:
+                    self.partial_ok.add(id(n))
+                    self._keep.append(n)
+
     def after(self, step, op, out, pre, post, pre_nodes, interrupted):
         scopes = dict((n, v) for n, v in op.get('scopes', []))
         if scopes.get('allow_partial') is True and out.root_index is not None:
@@ -1998,6 +2064,9 @@ class C03Oracle(OracleBase):
             if any(a and a[0] == 'attached' for a in _arg_descs(op)):
                 if any(id(n) in self.partial_ok for ns in pre_nodes for n in ns):
                     self._mark(root)
+        if not self._check_strict_slots(step, op, out, scopes):
+            return
+        self._mark_scoped(op, out)
         if not self._check_all(step, op, out):
             return
         # failure atomicity: a rejected single write leaves everything as it was
@@ -2486,7 +2555,7 @@ for _p in ('C07', 'C08'):
 
 
 def _subscribes(node):
-    if isinstance(node, Rec):
+    if isinstance(node, (Rec, RecQ)):
         return True
     if isinstance(node, (pg.Dict, pg.List)):
         return node._onchange_callback is not None  # pylint: disable=protected-access
